@@ -366,6 +366,18 @@ def structTyOf : Ty → List Fld
     (fields of the nested struct type, current struct value, getter, depth) ↦ outcome -/
 abbrev Nest := List Fld → Val → Getter → Nat → Outcome
 
+/-- setNestedStructWithDepth: the struct value the nested bind works on — the field itself, what
+    its pointer points to, or a freshly allocated zero struct for a nil pointer -/
+def innerOf (nfs : List Fld) : Val → Val
+  | .ptr v => v
+  | .nil => zero (.struct nfs)
+  | v => v
+
+/-- … and how the bound struct is stored back into a field of type `ty` -/
+def rewrap : Ty → Val → Val
+  | .ptr _, nv => .ptr nv
+  | _, nv => nv
+
 /-- the field is resolved (and nil embedded pointers on its path are allocated): file, map and
     nested struct fields always; other fields when a value was found or a default is declared -/
 def wants (g : Getter) (f : FieldInfo) : Bool :=
@@ -384,14 +396,8 @@ def fieldAction (P : Params) (cfg : Cfg) (nest : Nest) (g : Getter) (depth : Nat
     if cfg.maxDepth < depth + 1 then .inr (.err (.bind f.name .depth))
     else
       let nfs := structTyOf f.ty
-      let inner := match cur with
-        | .ptr v => v
-        | .nil => zero (.struct nfs)
-        | v => v
-      match nest nfs inner (g.push f.tagName) (depth + 1) with
-      | .ok nv => .inl (match f.ty with
-        | .ptr _ => Val.ptr nv
-        | _ => nv)
+      match nest nfs (innerOf nfs cur) (g.push f.tagName) (depth + 1) with
+      | .ok nv => .inl (rewrap f.ty nv)
       | .err e => .inr (.err (.bind f.name e))
       | .panic => .inr .panic
   else
